@@ -279,6 +279,9 @@ func (c *Chain) InitChain(g *GenesisDoc) (err error) {
 	c.App.InitChain(abci.RequestInitChain{ChainId: ChainID, Time: g.Time, InitialHeight: 1})
 	c.pendingGenesis = nil
 	c.Header = tmproto.Header{ChainID: ChainID, Height: 0, Time: g.Time}
+	// InitChain leaves the genesis writes in the deliver state (they are
+	// committed with the first block): read through it until then.
+	c.InBlk = true
 	return nil
 }
 
